@@ -24,6 +24,7 @@ func runC02(c *Ctx) {
 	c.checkCmdDispatch()
 	c.checkNexusKeywords()
 	c.checkNexusDefaults()
+	c.checkNoCloseAfterGo("close-after-go", "io/utils", "cmd")
 }
 
 // ---------------------------------------------------------------------------
